@@ -457,6 +457,8 @@ class Check:
                                    {"behaviour": beh, "mode": r.get("mode")})
                     continue
                 own = r.get("owner")
+                if (r.get("mismatch") or {}).get("kind") == "hang":
+                    own = self.prop   # like a crash: whichever check meets an operation that never returns reports it
                 if own == self.prop:
                     self.violation("%s [%s mode]" % (r["mismatch"]["detail"], r.get("mode")),
                                    {"behaviour": beh, "mismatch": r["mismatch"], "mode": r.get("mode"), "ablated": r.get("ablated")})
